@@ -20,6 +20,7 @@ func propC17(r *Report, tier string) {
 	ruleSearchRequestDecoder(r, "K9a-search-request")
 	ruleCompoundSwitchCoverage(r, "K13-compound-coverage")
 	rulePooledLexerReset(r, "K9b-pooled-lexer-reset")
+	ruleQueryOptionsReachSearcher(r, "K9b-query-options-reach-searcher", queryOptionAllow)
 	ruleCompactFormComplete(r, "K9c-compact-form-complete", "search", "search/query", "mapping", "bleve")
 	r.Floor("K10-dispatch", 25)
 	r.Floor("K9c-marshal-keys-read", 8)
@@ -779,4 +780,12 @@ func rulePooledLexerReset(r *Report, rule string) {
 		f := st.Field(i)
 		r.Ob(rule, "queryStringLex."+f.Name()+"/reset-on-reuse", f.Pos(), reset[f.Name()], "field "+f.Name()+" of the pooled lexer is not re-initialised in getQueryStringLex: state of a previous (possibly aborted) parse leaks into the next query string")
 	}
+}
+
+var queryOptionAllow = map[string]string{
+	"BooleanQuery.BoostVal":     "long-standing behaviour: the boost of a compound query is accepted (BoostableQuery) and serialised but its searcher has no boost parameter; clauses carry their own boosts",
+	"ConjunctionQuery.BoostVal": "same as BooleanQuery",
+	"DisjunctionQuery.BoostVal": "same as BooleanQuery",
+	"MatchNoneQuery.BoostVal":   "a query that matches nothing has nothing to boost",
+	"QueryStringQuery.BoostVal": "the parsed query string produces a boolean query (see BooleanQuery)",
 }
